@@ -78,10 +78,14 @@ def alternative_or_next(type_: Union[RDREdge.Alternative, RDREdge.Next],
     """
     new_branch = chained_logic(AND, *conditions)
     current_node = SymbolicExpression._current_parent_()
-    if isinstance(current_node._parent_, (Alternative, Next)):
-        current_node = current_node._parent_
-    elif isinstance(current_node._parent_, ExceptIf) and current_node is current_node._parent_.left:
-        current_node = current_node._parent_
+    # The new branch comes after everything the current node already belongs to: climb to the top of the chain of
+    # alternatives (and of the refinements of the node) built so far.
+    while True:
+        parent = current_node._parent_
+        if isinstance(parent, (Alternative, Next)) or (isinstance(parent, ExceptIf) and current_node is parent.left):
+            current_node = parent
+        else:
+            break
     prev_parent = current_node._parent_
     current_node._parent_ = None
     if type_ == RDREdge.Alternative:
@@ -93,5 +97,8 @@ def alternative_or_next(type_: Union[RDREdge.Alternative, RDREdge.Next],
     new_branch._node_.weight = type_
     new_conditions_root._parent_ = prev_parent
     if isinstance(prev_parent, BinaryOperator):
-        prev_parent.right = new_conditions_root
+        if prev_parent.left is current_node:
+            prev_parent.left = new_conditions_root
+        else:
+            prev_parent.right = new_conditions_root
     return new_conditions_root.right
